@@ -181,6 +181,11 @@ func (self *Compiler) compileProgram(
 			for srcIdent, fn := range self.modules[self.currModule] {
 				mappings.Functions[srcIdent] = fn.MangledName
 			}
+		} else {
+			// The initializer of an imported module is called by the entry module's initializer.
+			// Without globals or builtin imports it would be empty, which the VM refuses to execute.
+			self.currFn = InitFunctionIdent
+			self.insert(newPrimitiveInstruction(Opcode_Return), errors.Span{})
 		}
 	}
 
